@@ -17,11 +17,11 @@ OBLIGATIONS = [
        bounds="all code combinations for shapes (2,2),(3,2) (thorough up to 3x3/4x2) x matrices x gap settings x every ordered band pair in [-n-1, m+1] x {semi-global, local}"),
     SX("kx_banded_fill", "kx_c09_banded", "ob_banded_fill", cls="S", engine="KX", quick=600, thorough=3000, parts={"quick": 16, "thorough": 16},
        functions=[A + "banded.pyx:_fill_align_table", A + "tracetable.pyx:get_trace_linear"],
-       stubs=["table layout / initialisation of align_banded transcribed (zeros, 'negative infinity' boundary columns)", "int32 scores as mathematical ints converted on every store; uint8 codes as bit-vectors; if-converted"],
+       stubs=["table layout of align_banded transcribed (zeros, boundary columns); the 'negative infinity' value is cut out of the current align_banded source (vf/kx/wslice.py)", "int32 scores as mathematical ints converted on every store; uint8 codes as bit-vectors; if-converted"],
        bounds="shapes 2x2, 2x3, 3x3 (thorough + 3x4, 2x4), 6-8 (all) cropped bands per shape, semi-global and local, symbolic codes over |A|=2, EVERY matrix entry in +-2^20, gap penalty in -2^20..0: each cell inside the band <= the unbanded optimum for that end point; each cell == the banded recurrence stated in sequence coordinates (border positions count as 0); local cells >= 0; no access outside the tables"),
     SX("kx_banded_fill_affine", "kx_c09_banded", "ob_banded_fill_affine", cls="S", engine="KX", quick=600, thorough=3000, parts={"quick": 16, "thorough": 16},
        functions=[A + "banded.pyx:_fill_align_table_affine", A + "tracetable.pyx:get_trace_affine"],
-       stubs=["table layout / initialisation of align_banded (affine: three tables, 'negative infinity' sentinel formula) transcribed", "int32 arithmetic: every + - * result is checked against its C type and wraps where an overflow is feasible"],
+       stubs=["table layout of align_banded (affine: three tables) transcribed; the 'negative infinity' sentinel formula is cut out of the current align_banded source and evaluated over z3 integers (vf/kx/wslice.py)", "int32 arithmetic: every + - * result is checked against its C type and wraps where an overflow is feasible"],
        bounds="shapes 2x2 (all 6 bands), 2x3 (4 bands; thorough all, + 3x3), semi-global and local, symbolic codes over |A|=2, EVERY matrix entry in +-2^20, gap opening and extension in -2^20..0: no cell of the three score tables exceeds the largest score any alignment can reach (largest positive matrix entry x min(n, m)), i.e. the sentinel never wraps"),
 ]
 EXPLANATION = "C09: heuristic alignments are valid, honestly scored and never above optimal."
